@@ -216,7 +216,7 @@ func H_C10_target() {
 // slashes leaves a rebalance request behind by the end of the transaction.
 func H_C10_trigger() {
 	id := "C10.trigger"
-	ev := nd.Choice("event", 12)
+	ev := nd.Choice("event", 15)
 	warm := nd.Choice("warmup", 2) // the asset may still be in its warm-up period: the request must be queued all the same
 	st := Build([]Pos{{0, 0, 0}, {1, 1, 0}}, Opts{Started: warm})
 	e := st.E
@@ -262,6 +262,12 @@ func H_C10_trigger() {
 			_, err = e.K.Undelegate(e.Ctx, Dels[0], AV(e, Vals[0]), sdk.NewCoin(Denoms[0], nd.IntRange("amt", "1", Pow30)))
 		case 10:
 			_, err = e.K.Redelegate(e.Ctx, Dels[0], AV(e, Vals[0]), AV(e, Vals[1]), sdk.NewCoin(Denoms[0], nd.IntRange("amt", "1", Pow30)))
+		case 12: // a validator that x/alliance never touched (no alliance record) enters the active set: native bonded stake grows
+			err = hooks.AfterValidatorBonded(e.Ctx, nil, Vals[2])
+		case 13:
+			err = hooks.AfterValidatorBeginUnbonding(e.Ctx, nil, Vals[2])
+		case 14:
+			err = hooks.AfterValidatorRemoved(e.Ctx, nil, Vals[2])
 		case 11: // governance changes the weight
 			a, _ := e.K.GetAssetByDenom(e.Ctx, Denoms[0])
 			nw := nd.DecRange("neww", "0", "10")
